@@ -1,3 +1,467 @@
 package main
 
-func cmdRun(args []string) int { return 2 }
+import (
+	"crypto/sha256"
+	"encoding/hex"
+	"encoding/json"
+	"flag"
+	"fmt"
+	"os"
+	"path/filepath"
+	"sort"
+	"strconv"
+	"strings"
+	"time"
+
+	"golang.org/x/tools/go/ssa"
+
+	"verif/engine/gosx"
+)
+
+type harnessCfg struct {
+	Pkg       string           `json:"pkg"`
+	Func      string           `json:"func"`
+	Quick     map[string]int   `json:"quick"`
+	Thorough  map[string]int   `json:"thorough"`
+	Instances []map[string]int `json:"instances"`
+	QuickInstances []map[string]int `json:"quick_instances"`
+	MaxSteps  int64            `json:"max_steps"`
+	SolverMs  int              `json:"solver_ms"`
+	Note      string           `json:"note"`
+	ThoroughOnly bool          `json:"thorough_only"`
+}
+
+type propCfg struct {
+	Property    string       `json:"property"`
+	Harnesses   []harnessCfg `json:"harnesses"`
+	Stubs       []string     `json:"stubs"`
+	Assumptions []string     `json:"assumptions"`
+	Bounds      map[string]string `json:"bounds"`
+	Outside     []string     `json:"outside"`
+	WallQuick   string       `json:"wall_quick"`
+	WallThorough string      `json:"wall_thorough"`
+}
+
+type knownFile struct {
+	Known []struct {
+		ID       string `json:"id"`
+		Property string `json:"property"`
+		What     string `json:"what"`
+	} `json:"known"`
+	Fixed []struct {
+		Property string `json:"property"`
+		Commit   string `json:"commit"`
+		What     string `json:"what"`
+	} `json:"fixed"`
+}
+
+func loadKnown() (*knownFile, error) {
+	var kf knownFile
+	data, err := os.ReadFile(filepath.Join(verifDir, "known_findings.json"))
+	if err != nil {
+		if os.IsNotExist(err) {
+			return &kf, nil
+		}
+		return nil, err
+	}
+	return &kf, json.Unmarshal(data, &kf)
+}
+
+func mergeParams(ms ...map[string]int) map[string]int {
+	out := map[string]int{}
+	for _, m := range ms {
+		for k, v := range m {
+			out[k] = v
+		}
+	}
+	return out
+}
+
+func paramString(p map[string]int) string {
+	var ks []string
+	for k := range p {
+		ks = append(ks, k)
+	}
+	sort.Strings(ks)
+	var sb strings.Builder
+	for i, k := range ks {
+		if i > 0 {
+			sb.WriteByte(',')
+		}
+		fmt.Fprintf(&sb, "%s=%d", k, p[k])
+	}
+	return sb.String()
+}
+
+type harnessReport struct {
+	Harness      string                    `json:"harness"`
+	Params       string                    `json:"params"`
+	Paths        int64                     `json:"paths"`
+	Pruned       int64                     `json:"pruned_by_assumption"`
+	Decisions    int64                     `json:"decisions"`
+	Steps        int64                     `json:"instructions"`
+	Outcomes     map[string]int64          `json:"outcomes"`
+	Inconclusive map[string]int64          `json:"inconclusive,omitempty"`
+	Sites        map[string]*gosx.SiteStat `json:"sites"`
+	Exhaustive   bool                      `json:"exhaustive"`
+	WallS        float64                   `json:"wall_s"`
+	Queries      int                       `json:"solver_queries"`
+	MaxDecisions int                       `json:"max_decisions_on_a_path"`
+}
+
+func cmdRun(args []string) int {
+	fs := flag.NewFlagSet("run", flag.ExitOnError)
+	prop := fs.String("property", "", "property id")
+	tier := fs.String("tier", "quick", "quick|thorough")
+	workers := fs.Int("workers", 16, "workers")
+	only := fs.String("only", "", "only harnesses whose func name contains this")
+	fs.Parse(args)
+	if t := os.Getenv("VERIF_TIER"); t != "" && *tier == "" {
+		*tier = t
+	}
+	seed := int64(0)
+	if s := os.Getenv("VERIF_SEED"); s != "" {
+		seed, _ = strconv.ParseInt(s, 10, 64)
+	}
+	t0 := time.Now()
+	var pc propCfg
+	data, err := os.ReadFile(filepath.Join(verifDir, "props", *prop+".json"))
+	if err != nil {
+		fmt.Fprintln(os.Stderr, err)
+		return 2
+	}
+	if err := json.Unmarshal(data, &pc); err != nil {
+		fmt.Fprintln(os.Stderr, "props:", err)
+		return 2
+	}
+	kf, err := loadKnown()
+	if err != nil {
+		fmt.Fprintln(os.Stderr, "known_findings.json:", err)
+		return 2
+	}
+	knownIDs := map[string]string{}
+	for _, k := range kf.Known {
+		if k.Property == pc.Property {
+			knownIDs[k.ID] = k.What
+		}
+	}
+	overlay, err := gosx.BuildOverlay(verifDir+"/harness", repoDir, false)
+	if err != nil {
+		fmt.Fprintln(os.Stderr, err)
+		return 2
+	}
+	patSet := map[string]bool{}
+	var patterns []string
+	for _, h := range pc.Harnesses {
+		full := modPath + "/" + h.Pkg
+		if !patSet[full] {
+			patSet[full] = true
+			patterns = append(patterns, full)
+		}
+	}
+	P, pkgs, err := gosx.Load(repoDir, overlay, patterns)
+	if err != nil {
+		// The tree does not type-check with the harnesses: cannot decide anything.
+		fmt.Fprintln(os.Stderr, "load failed:", err)
+		return 2
+	}
+	loadS := time.Since(t0).Seconds()
+	wallBudget := time.Duration(0)
+	wb := pc.WallQuick
+	if *tier == "thorough" {
+		wb = pc.WallThorough
+	}
+	if wb != "" {
+		wallBudget, _ = time.ParseDuration(wb)
+	}
+
+	var reports []harnessReport
+	var allViol []*gosx.Violation
+	var witnesses []*gosx.Violation
+	var samples []interface{}
+	totalPaths, totalDec, totalQueries, totalSym := int64(0), int64(0), 0, int64(0)
+	var solverTime time.Duration
+	queries := map[string]int{"sat": 0, "unsat": 0, "unknown": 0, "errors": 0}
+	backends := map[string]int{}
+	exhaustive := true
+	perSite := map[string]*gosx.SiteStat{}
+	crossChecked, crossDisagree := int64(0), int64(0)
+
+	for _, h := range pc.Harnesses {
+		if *only != "" && !strings.Contains(h.Func, *only) {
+			continue
+		}
+		if h.ThoroughOnly && *tier != "thorough" {
+			continue
+		}
+		full := modPath + "/" + h.Pkg
+		sp := pkgs[full]
+		var f *ssa.Function
+		if sp != nil {
+			f = sp.Func(h.Func)
+		}
+		if f == nil {
+			fmt.Fprintf(os.Stderr, "harness %s.%s not found\n", h.Pkg, h.Func)
+			return 2
+		}
+		base := h.Quick
+		if *tier == "thorough" && h.Thorough != nil {
+			base = mergeParams(h.Quick, h.Thorough)
+		}
+		insts := h.Instances
+		if *tier == "quick" && h.QuickInstances != nil {
+			insts = h.QuickInstances
+		}
+		if len(insts) == 0 {
+			insts = []map[string]int{{}}
+		}
+		for _, inst := range insts {
+			params := mergeParams(base, inst)
+			cfg := defaultCfg()
+			cfg.Workers = *workers
+			cfg.Seed = seed
+			if h.MaxSteps > 0 {
+				cfg.MaxSteps = h.MaxSteps
+			}
+			if h.SolverMs > 0 {
+				cfg.SolverTimeout = h.SolverMs
+			}
+			if *tier == "thorough" {
+				cfg.CrossCheckPct = 2
+			}
+			if wallBudget > 0 {
+				left := wallBudget - time.Since(t0)
+				if left < 5*time.Second {
+					left = 5 * time.Second
+				}
+				cfg.WallBudget = left
+			}
+			cfg.Witnesses = 4
+			ex := gosx.NewExplorer(P, f, params, cfg)
+			res := ex.Run()
+			rep := harnessReport{Harness: h.Func, Params: paramString(params), Paths: res.Paths, Pruned: res.Pruned, Decisions: res.Decisions,
+				Steps: res.Steps, Outcomes: res.Outcomes, Inconclusive: res.Inconclusive, Sites: res.Sites, Exhaustive: res.Exhaustive,
+				WallS: res.Wall.Seconds(), Queries: res.Solver.Queries, MaxDecisions: res.MaxPathDecisions}
+			if len(rep.Inconclusive) == 0 {
+				rep.Inconclusive = nil
+			}
+			reports = append(reports, rep)
+			fmt.Fprintf(os.Stderr, "[%s] %s(%s): paths=%d decisions=%d queries=%d viol=%d exhaustive=%v wall=%.1fs %v\n", pc.Property, h.Func, rep.Params,
+				res.Paths, res.Decisions, res.Solver.Queries, len(res.Violations), res.Exhaustive, res.Wall.Seconds(), res.Inconclusive)
+			totalPaths += res.Paths
+			totalSym += res.SymbolicPaths
+			totalDec += res.Decisions
+			totalQueries += res.Solver.Queries
+			solverTime += res.Solver.Time
+			queries["sat"] += res.Solver.Sat
+			queries["unsat"] += res.Solver.Unsat
+			queries["unknown"] += res.Solver.Unknown
+			queries["errors"] += res.Solver.Errors
+			for k, v := range res.Solver.ByBackend {
+				backends[k] += v
+			}
+			crossChecked += res.CrossChecked
+			crossDisagree += res.CrossDisagree
+			if !res.Exhaustive {
+				exhaustive = false
+			}
+			for tag, s := range res.Sites {
+				key := h.Func + ":" + tag
+				if perSite[key] == nil {
+					perSite[key] = &gosx.SiteStat{}
+				}
+				perSite[key].Reached += s.Reached
+				perSite[key].Proved += s.Proved
+				perSite[key].Failed += s.Failed
+			}
+			allViol = append(allViol, res.Violations...)
+			for _, w := range res.Witnesses {
+				witnesses = append(witnesses, &gosx.Violation{Harness: h.Func, Pkg: full, Tag: "<witness>", ND: w, Params: params})
+			}
+			for i, s := range res.Samples {
+				if i < 2 && len(samples) < 12 {
+					samples = append(samples, map[string]interface{}{"harness": h.Func, "params": rep.Params, "outcome": s.Outcome,
+						"decisions": s.Decisions, "path_condition": s.PC, "model": s.Model})
+				}
+			}
+		}
+	}
+
+	// ---- native replay: violations and path witnesses ----
+	newConfirmed, knownConfirmed, spurious := []*Confirmed{}, map[string]*Confirmed{}, []*Confirmed{}
+	validated, mismatched := 0, 0
+	var replayErr string
+	if len(allViol)+len(witnesses) > 0 {
+		cs, err := replayViolations(append(append([]*gosx.Violation{}, allViol...), witnesses...), pc.Property)
+		if err != nil {
+			replayErr = err.Error()
+			fmt.Fprintln(os.Stderr, "replay error:", err)
+		}
+		for _, c := range cs {
+			if c.V.Tag == "<witness>" {
+				if c.Outcome == "ok" {
+					validated++
+				} else {
+					mismatched++
+					fmt.Fprintf(os.Stderr, "translator mismatch: witness of %s natively gave %s tag=%s nd=%v\n", c.V.Harness, c.Outcome, c.NativeTag, c.V.ND)
+				}
+				continue
+			}
+			switch {
+			case !c.Matches:
+				spurious = append(spurious, c)
+			case c.V.Known != "" && knownIDs[c.V.Known] != "":
+				if knownConfirmed[c.V.Known] == nil {
+					knownConfirmed[c.V.Known] = c
+				}
+			default:
+				newConfirmed = append(newConfirmed, c)
+			}
+		}
+	}
+	if mismatched > 0 || len(spurious) > 0 || replayErr != "" {
+		exhaustive = false
+	}
+
+	exit := 0
+	var violLines []string
+	os.MkdirAll(filepath.Join(verifDir, "replays", pc.Property), 0o755)
+	seenTag := map[string]bool{}
+	for _, c := range newConfirmed {
+		key := c.V.Harness + "|" + c.V.Tag + "|" + c.V.Known
+		if seenTag[key] {
+			continue
+		}
+		seenTag[key] = true
+		vec := replayVector{Harness: c.V.Harness, Pkg: c.V.Pkg, Tag: c.V.Tag, Known: c.V.Known, ND: c.V.ND, Params: c.V.Params, Detail: c.V.Detail}
+		b, _ := json.MarshalIndent(vec, "", " ")
+		sum := sha256.Sum256(b)
+		path := filepath.Join(verifDir, "replays", pc.Property, fmt.Sprintf("%s-%s-%s.json", c.V.Harness, sanitize(c.V.Tag), hex.EncodeToString(sum[:4])))
+		os.WriteFile(path, b, 0o644)
+		line := fmt.Sprintf("VIOLATION property=%s replay=%s", pc.Property, path)
+		violLines = append(violLines, line)
+		fmt.Println(line)
+		fmt.Printf("  harness=%s assertion=%s params=%s detail=%q\n", c.V.Harness, c.V.Tag, paramString(c.V.Params), c.V.Detail)
+		exit = 1
+	}
+	var knownSeen []string
+	var kids []string
+	for id := range knownIDs {
+		kids = append(kids, id)
+	}
+	sort.Strings(kids)
+	for _, id := range kids {
+		if c := knownConfirmed[id]; c != nil {
+			fmt.Printf("KNOWN-FINDING: property=%s %s: %s (harness %s, assertion %s; reproduced natively)\n", pc.Property, id, knownIDs[id], c.V.Harness, c.V.Tag)
+			knownSeen = append(knownSeen, id)
+		} else {
+			fmt.Fprintf(os.Stderr, "note: known finding %s was not exhibited by this run\n", id)
+		}
+	}
+
+	// ---- evidence ----
+	var funcs []string
+	P.FuncsSeen.Range(func(k, _ interface{}) bool {
+		f := k.(*ssa.Function)
+		name := f.String()
+		if strings.Contains(name, "/zzverif") {
+			return true
+		}
+		funcs = append(funcs, name)
+		return true
+	})
+	sort.Strings(funcs)
+	repoFuncs := 0
+	for _, f := range funcs {
+		if strings.Contains(f, modPath) {
+			repoFuncs++
+		}
+	}
+	funcsOut := funcs
+	if len(funcsOut) > 300 {
+		// keep the repository's own functions first
+		var a, b []string
+		for _, f := range funcs {
+			if strings.Contains(f, modPath) {
+				a = append(a, f)
+			} else {
+				b = append(b, f)
+			}
+		}
+		funcsOut = append(a, b...)
+		if len(funcsOut) > 300 {
+			funcsOut = funcsOut[:300]
+		}
+	}
+	var spur []interface{}
+	for _, c := range spurious {
+		spur = append(spur, map[string]interface{}{"harness": c.V.Harness, "assertion": c.V.Tag, "known": c.V.Known, "native_outcome": c.Outcome, "native_tag": c.NativeTag, "nd": c.V.ND})
+	}
+	if len(samples) == 0 {
+		samples = append(samples, map[string]interface{}{"note": "no symbolic path completed"})
+	}
+	states := totalPaths
+	if states < 1 {
+		states = 1
+	}
+	trans := totalDec
+	if trans < 1 {
+		trans = 1
+	}
+	ev := map[string]interface{}{
+		"property_id": pc.Property,
+		"tier":        *tier,
+		"seed":        seed,
+		"level":       "model_checking",
+		"wall_s":      time.Since(t0).Seconds(),
+		"violations":  len(violLines),
+		"assumptions": append(append([]string{}, pc.Assumptions...), pc.Stubs...),
+		"coverage": map[string]interface{}{
+			"states":                        states,
+			"transitions":                   trans,
+			"traces_validated_against_impl": validated,
+			"samples":                       samples,
+			"evaluations":                   totalQueries,
+			"distinct_nontrivial":           totalSym,
+			"rule":                          "states = completed execution paths of the real code (each path is one solver-checked equivalence class of inputs: every branch on a symbolic value was decided by an SMT feasibility query); transitions = symbolic branch decisions; evaluations = SMT queries discharged; distinct_nontrivial = completed paths whose path condition mentions at least one symbolic input (distinct by construction: decision prefixes are pairwise different).",
+			"exhaustive":                    exhaustive,
+			"technique":                     "bounded symbolic execution of the real Go code (go/ssa regenerated from /repo on this run) with SMT (z3 / cvc5) deciding every branch and assertion; counterexamples replayed natively",
+			"bounds":                        pc.Bounds,
+			"outside_claim":                 pc.Outside,
+			"stubs":                         pc.Stubs,
+			"harness_runs":                  reports,
+			"per_site_reach":                perSite,
+			"functions_encoded_count":       len(funcs),
+			"functions_encoded_repo_count":  repoFuncs,
+			"functions_encoded":             funcsOut,
+			"queries":                       queries,
+			"solver_backends":               backends,
+			"solver_time_s":                 solverTime.Seconds(),
+			"load_and_ssa_s":                loadS,
+			"translator_witness_mismatches": mismatched,
+			"spurious_counterexamples":      spur,
+			"known_findings_seen":           knownSeen,
+			"cross_checked_queries":         crossChecked,
+			"cross_check_disagreements":     crossDisagree,
+			"violation_lines":               violLines,
+			"replay_error":                  replayErr,
+		},
+	}
+	os.MkdirAll(filepath.Join(verifDir, "evidence"), 0o755)
+	b, _ := json.MarshalIndent(ev, "", " ")
+	if err := os.WriteFile(filepath.Join(verifDir, "evidence", pc.Property+".json"), b, 0o644); err != nil {
+		fmt.Fprintln(os.Stderr, err)
+	}
+	fmt.Printf("%s %s: %d paths, %d decisions, %d queries (%.1fs solver), exhaustive=%v, new violations=%d, known=%d, spurious=%d, witnesses validated=%d mismatched=%d, wall %.1fs\n",
+		pc.Property, *tier, totalPaths, totalDec, totalQueries, solverTime.Seconds(), exhaustive, len(violLines), len(knownSeen), len(spurious), validated, mismatched, time.Since(t0).Seconds())
+	return exit
+}
+
+func sanitize(s string) string {
+	return strings.Map(func(r rune) rune {
+		if (r >= 'a' && r <= 'z') || (r >= 'A' && r <= 'Z') || (r >= '0' && r <= '9') || r == '-' || r == '_' {
+			return r
+		}
+		return '_'
+	}, s)
+}
